@@ -159,7 +159,7 @@ class Gen:
                 ["remove"] * w.get("remove", 2) + ["drop_measurement"] * w.get("drop", 1) + \
                 ["remove_all"] * w.get("remove_all", 1) + ["update"] * w.get("update", 2) + \
                 ["update_all"] * w.get("update_all", 1) + ["reindex"] * w.get("reindex", 1) + \
-                ["reopen"] * w.get("reopen", 0)
+                ["reopen"] * w.get("reopen", 1)
         op = r.choice(kinds)
         a = {"op": op}
         if op == "insert":
